@@ -64,7 +64,8 @@ func NewValidatorSet(validators *ConsensusValidators, delegate ...bool) (Validat
 		return ValidatorSet{}, ErrNoValidators()
 	}
 	// calculate the minimum power for a two-thirds majority (2f+1)
-	minPowerFor23Maj := (2*totalPower)/3 + 1
+	// NOTE: floor(2T/3) is computed as 2*(T/3) + floor(2*(T%3)/3) because the plain 2*T wraps for T >= 2^63
+	minPowerFor23Maj := 2*(totalPower/3) + (2*(totalPower%3))/3 + 1
 	var multiPublicKey crypto.MultiPublicKeyI
 	// for validators, create a composite multi-public key out of the public
 	// keys (in curve point format)
